@@ -48,6 +48,10 @@ inductive Step where
   | writeTmp (n : Nat)                  -- WriteFile(CURRENT.tmp, name)
   | renameTmp                           -- Rename(CURRENT.tmp, CURRENT)
   | writeCur (n : Nat)                  -- (bad shape) WriteFile(CURRENT, name) directly
+  | tmpOpen                             -- OpenFileHandle(CURRENT.tmp, O_CREATE|O_TRUNC)
+  | tmpWrite (n : Nat)                  -- Write(name) on the CURRENT.tmp handle
+  | tmpSync                             -- Sync() on the CURRENT.tmp handle
+  | tmpClose
   | remove (n : Nat)
   deriving DecidableEq, Repr, Inhabited
 
@@ -59,6 +63,7 @@ def Disk.step (d : Disk) : Step → Disk
     | none => d
   | .setRaw n f => d.setFile n f
   | .writeTmp n => { d with tmp := some n }
+  | .tmpWrite n => { d with tmp := some n }
   | .renameTmp =>
     match d.tmp with
     | some n => { d with current := some n, tmp := none }
@@ -158,8 +163,14 @@ def appendSteps (c : MCfg) (syncWrites : Bool) (m : Mgr) (es : List Edit) : List
   [.append m.cur es] ++
   (if c.syncOnAppend ∧ syncWrites ∧ es.any requiresSync then [.sync m.cur] else [])
 
-def switchCurrentSteps (c : MCfg) (n : Nat) : List Step :=
-  if c.currentViaRename then [.writeTmp n, .renameTmp] else [.writeCur n]
+/-- `writeCurrent` up to (excluding) the rename: CURRENT.tmp gets the name -/
+def tmpPart (c : MCfg) (syncWrites : Bool) (n : Nat) : List Step :=
+  if c.currentTmpSynced then
+    [.tmpOpen, .tmpWrite n] ++ (if syncWrites then [.tmpSync] else []) ++ [.tmpClose]
+  else [.writeTmp n]
+
+def switchCurrentSteps (c : MCfg) (syncWrites : Bool) (n : Nat) : List Step :=
+  if c.currentViaRename then tmpPart c syncWrites n ++ [.renameTmp] else [.writeCur n]
 
 /-- target id and the `Stat` probes of `nextManifestFileLocked` -/
 def rwFree (m : Mgr) (d : Disk) : Nat × List Step :=
@@ -168,7 +179,7 @@ def rwFree (m : Mgr) (d : Disk) : Nat × List Step :=
 /-- `rewriteLocked` after the target name `n` was chosen; `se` = snapshot edits -/
 def rewriteBody (c : MCfg) (syncWrites : Bool) (cur n : Nat) (se : List Edit) : List Step :=
   let write := snapshotWriteSteps n se ++ (if syncWrites then [.sync n] else []) ++ [.close n]
-  let switch := switchCurrentSteps c n
+  let switch := switchCurrentSteps c syncWrites n
   let reopen := [Step.close cur, .openrw n]
   let rm := if cur ≠ n then [Step.remove cur] else []
   if c.currentAfterSnapshot then
